@@ -12,13 +12,16 @@ Executable model of `ABCARMPropertyGraph.generate_adms` (fim/graph/resources/abc
 * `firstSecond` — `NetworkXPropertyGraph.get_first_and_second_neighbor`, including the inert
   second-hop relation filter of the code as it is (`Cfg.dropsK = false`; the flag is extracted from
   the source on every run, so a repair of that filter switches the model with it).
+* `linkClose` — the `while len(trace_cps) > 0` loop that follows links from connection point to connection point
+  until nothing new turns up (`Cfg.linkRounds = none`; `some 1` is the single pass of the code before the repair).
 * `keepSet`, `genAdm`, `generateAdms` — the partition for one delegation id / for all ids.
 * `Store`, `generateAdmsS` — the same run written as the sequence of store operations the code
   performs (clone under the new graph id, rewrite, queries on `self`, deletes), so that
   "the ARM is untouched" and "the result is `genAdm`" are theorems rather than the shape of the model.
 * `rekey` — `rewrite_delegations`.
 
-No Mathlib. The trace tables (`Cfg.linkTraces`, `Cfg.ownerTraces`) come from `Generated/ArmCfg.lean`.
+No Mathlib. The trace tables and the number of passes (`Cfg.linkTraces`, `Cfg.linkRounds`, `Cfg.ownerTraces`) come from
+`Generated/ArmCfg.lean` (gen/armcfg.py: behavioural probing of the code).
 -/
 namespace FimVerif.Arm
 
@@ -93,6 +96,10 @@ structure Cfg where
   dropsK : Bool
   cpClass : String
   linkTraces : List Trace
+  /-- how often the link traces are repeated from the connection points they find: `none` = until no new connection
+  point turns up (the `while len(trace_cps) > 0` loop of the repaired code), `some k` = exactly `k` rounds (the code
+  before the repair: one round) -/
+  linkRounds : Option Nat
   ownerTraces : List Trace
   stitchProp : String
   stitchTrue : String
@@ -160,16 +167,55 @@ def keep0 (cfg : Cfg) (g : G) (d : String) : List String := holders g d ++ stitc
 def keepCps (cfg : Cfg) (g : G) (d : String) : List String :=
   (keep0 cfg g d).filter (fun x => g.hasCls x cfg.cpClass)
 
-/-- pairs found in the first loop (cp —rel1→ l1 —rel2→ l2) -/
-def linkPairs (cfg : Cfg) (g : G) (d : String) : List (String × String) :=
-  (keepCps cfg g d).flatMap fun c => cfg.linkTraces.flatMap fun t => firstSecond cfg.dropsK g c t
+/-- the pairs the link traces find from the connection points `front` (one pass of `for cp in trace_cps`) -/
+def linkStep (cfg : Cfg) (g : G) (front : List String) : List (String × String) :=
+  front.flatMap fun c => cfg.linkTraces.flatMap fun t => firstSecond cfg.dropsK g c t
+
+/-- the pairs the owner traces find from the connection points `cps` (the second `for cp in keep_cps` loop) -/
+def ownerStep (cfg : Cfg) (g : G) (cps : List String) : List (String × String) :=
+  cps.flatMap fun c => cfg.ownerTraces.flatMap fun t => firstSecond cfg.dropsK g c t
+
+/-- `found_cps.difference(keep_cps, new_cps)`: the second elements of the pairs found from `front` that are not in `seen` -/
+def newCps (cfg : Cfg) (g : G) (seen front : List String) : List String :=
+  (((linkStep cfg g front).map (·.2)).eraseDups).filter (fun c => !seen.contains c)
+
+/-- the loop `while len(trace_cps) > 0`: `seen` = `keep_cps ∪ new_cps`, `front` = `trace_cps` (the connection points
+whose links have not been traced yet), `acc` = the pairs found so far. One unit of fuel per pass. Returns
+(all pairs, `keep_cps` after `keep_cps.update(new_cps)`). Running out of fuel with an empty `front` gives the same
+result as the regular exit; `linkClose_closed` (Proofs/Lemmas/C13Closure.lean) shows that `number of nodes + 1`
+passes always reach the regular exit. -/
+def linkClose (cfg : Cfg) (g : G) :
+    Nat → List String → List String → List (String × String) → List (String × String) × List String
+  | 0, seen, _, acc => (acc, seen)
+  | fuel + 1, seen, front, acc =>
+    if front.isEmpty then (acc, seen)
+    else linkClose cfg g fuel (seen ++ newCps cfg g seen front) (newCps cfg g seen front) (acc ++ linkStep cfg g front)
+
+/-- passes allowed: as configured, or (until a fixed point) one more than there are nodes -/
+def linkFuel (cfg : Cfg) (g : G) : Nat :=
+  match cfg.linkRounds with
+  | some k => k
+  | none => g.nodes.length + 1
+
+/-- the keep-set computation of one iteration as a function of the graph the queries run on (`self`)
+and the definite keep nodes -/
+def keepOn (cfg : Cfg) (self : G) (k0 : List String) : List String :=
+  let cps := k0.filter (fun x => self.hasCls x cfg.cpClass)
+  let lc := linkClose cfg self (linkFuel cfg self) cps cps []
+  k0 ++ pairIds lc.1 ++ pairIds (ownerStep cfg self lc.2)
+
+/-- the link loop started from the connection points among the definite keep nodes -/
+def linkRun (cfg : Cfg) (g : G) (d : String) : List (String × String) × List String :=
+  linkClose cfg g (linkFuel cfg g) (keepCps cfg g d) (keepCps cfg g d) []
+
+/-- pairs found by the link traces (cp —rel1→ l1 —rel2→ l2) -/
+def linkPairs (cfg : Cfg) (g : G) (d : String) : List (String × String) := (linkRun cfg g d).1
 
 /-- `keep_cps` after `keep_cps.update(new_cps)` -/
-def keepCps2 (cfg : Cfg) (g : G) (d : String) : List String :=
-  keepCps cfg g d ++ (linkPairs cfg g d).map (·.2)
+def keepCps2 (cfg : Cfg) (g : G) (d : String) : List String := (linkRun cfg g d).2
 
 def ownerPairs (cfg : Cfg) (g : G) (d : String) : List (String × String) :=
-  (keepCps2 cfg g d).flatMap fun c => cfg.ownerTraces.flatMap fun t => firstSecond cfg.dropsK g c t
+  ownerStep cfg g (keepCps2 cfg g d)
 
 /-- `delegations_info[d].keep_nodes` at the end of the iteration -/
 def keepSet (cfg : Cfg) (g : G) (d : String) : List String :=
@@ -219,15 +265,6 @@ def G.deleteNode (g : G) (x : String) : G :=
 def G.rewriteNode (g : G) (n0 : Node) (d : String) : G :=
   { g with nodes := g.nodes.map fun n =>
       if n.id = n0.id then { n with ldel := n0.ldel.restrict d, cdel := n0.cdel.restrict d } else n }
-
-/-- the keep-set computation of one iteration as a function of the graph the queries run on (`self`)
-and the definite keep nodes -/
-def keepOn (cfg : Cfg) (self : G) (k0 : List String) : List String :=
-  let cps := k0.filter (fun x => self.hasCls x cfg.cpClass)
-  let lp := cps.flatMap fun c => cfg.linkTraces.flatMap fun t => firstSecond cfg.dropsK self c t
-  let cps2 := cps ++ lp.map (·.2)
-  let op := cps2.flatMap fun c => cfg.ownerTraces.flatMap fun t => firstSecond cfg.dropsK self c t
-  k0 ++ pairIds lp ++ pairIds op
 
 /-- rewrite the delegations of every catalogued node (of the ARM as read at the start) on graph `x` -/
 def rewriteAll (g0 : G) (d x : String) (s : Store) : Store :=
@@ -298,6 +335,7 @@ def genCfg : Cfg :=
   { dropsK := Gen.ArmCfg.secondHopDropsK
     cpClass := Gen.ArmCfg.cpClass
     linkTraces := Gen.ArmCfg.linkTraces.map mkTrace
+    linkRounds := Gen.ArmCfg.linkRounds
     ownerTraces := Gen.ArmCfg.ownerTraces.map mkTrace
     stitchProp := Gen.ArmCfg.stitchProp
     stitchTrue := Gen.ArmCfg.stitchTrue }
